@@ -144,6 +144,11 @@ type world struct {
 	trailing int
 	maxAE    int
 	dead     bool
+	// what the latest RPC event answered (for engines that relay real requests)
+	lastResp interface{}
+	lastErr  error
+	// an optional transport put around the null transport (the catch-up engine's leader)
+	wrapTrans func(*nullTrans) raft.Transport
 }
 
 func newWorld(mono, restoreC bool, trailing, maxAE int) *world {
@@ -173,7 +178,11 @@ func (w *world) start() (ok bool) {
 			w.dead = true
 		}
 	}()
-	r, err := raft.VerifNewRaftNoStart(conf, w.fsm, w.st, w.st, w.snaps, w.trans)
+	var tr raft.Transport = w.trans
+	if w.wrapTrans != nil {
+		tr = w.wrapTrans(w.trans)
+	}
+	r, err := raft.VerifNewRaftNoStart(conf, w.fsm, w.st, w.st, w.snaps, tr)
 	if err != nil {
 		w.dead = true
 		return false
@@ -462,6 +471,7 @@ func (w *world) apply(e event) string {
 		rpc.Command = &raft.TimeoutNowRequest{RPCHeader: hdr(0, 0)}
 	}
 	w.c.reset(e.failAt, e.crashAt)
+	w.lastResp, w.lastErr = nil, nil
 	panicked := func() (p bool) {
 		defer func() {
 			if x := recover(); x != nil {
@@ -484,6 +494,7 @@ func (w *world) apply(e event) string {
 	resp := "n"
 	select {
 	case rr := <-ch:
+		w.lastResp, w.lastErr = rr.Response, rr.Error
 		switch x := rr.Response.(type) {
 		case *raft.RequestVoteResponse:
 			resp = fmt.Sprintf("v %d %d", x.Term, b2i(x.Granted))
@@ -804,15 +815,8 @@ func (g *gen) event() event {
 	}
 }
 
-func runHandlersCase(rng *rand.Rand, thorough bool, out *bufio.Writer, st *stats, seen map[string]bool) {
-	mono := rng.Intn(3) == 0
-	restoreC := rng.Intn(3) == 0
-	trailing := 1 + rng.Intn(3)
-	w := newWorld(mono, restoreC, trailing, 3)
-	w.noPV = rng.Intn(4) == 0
-	g := &gen{rng: rng, w: w}
-	curTerm, voteTerm, candPresent, cand, log, staged, snaps := g.initial()
-	// populate the stores directly (not counted as events)
+// populate fills the stores directly (not counted as events)
+func (w *world) populate(curTerm, voteTerm int, candPresent bool, cand int, log []entry, staged int, snaps []snapRec) {
 	w.c.reset(-1, -1)
 	if curTerm > 0 {
 		_ = w.st.InmemStore.SetUint64([]byte("CurrentTerm"), uint64(curTerm))
@@ -836,6 +840,17 @@ func runHandlersCase(rng *rand.Rand, thorough bool, out *bufio.Writer, st *stats
 		_, _ = sk.Write(encodeState(s.data))
 		_ = sk.Close()
 	}
+}
+
+func runHandlersCase(rng *rand.Rand, thorough bool, out *bufio.Writer, st *stats, seen map[string]bool) {
+	mono := rng.Intn(3) == 0
+	restoreC := rng.Intn(3) == 0
+	trailing := 1 + rng.Intn(3)
+	w := newWorld(mono, restoreC, trailing, 3)
+	w.noPV = rng.Intn(4) == 0
+	g := &gen{rng: rng, w: w}
+	curTerm, voteTerm, candPresent, cand, log, staged, snaps := g.initial()
+	w.populate(curTerm, voteTerm, candPresent, cand, log, staged, snaps)
 	initDur := w.durableTok()
 	var evs []string
 	var obs []string
@@ -1000,6 +1015,12 @@ func TestEngine(t *testing.T) {
 			seen := map[string]bool{}
 			for k := 0; k < *flagN; k++ {
 				runUniverseCase(rng, *flagThorough, out, st, seen)
+			}
+		case "catchup":
+			st.Rule = "two real servers: a leader image (0..12 [thorough: 0..21] entries incl. configuration entries, optional snapshots and compacted prefix, MaxAppendEntries 1/2/3/64) and a follower image that shares a prefix of it and then is short, equal, or continues with 1..3 entries of its own (lower or higher terms), optionally snapshotted/compacted, gap-tolerant or monotonic stores, follower term below / equal / above the leader's (1/10); the leader's real replicateTo runs from nextIndex (last+1 in 3/5, else anywhere in 1..last+1) with every request handed to the follower's real handler; 1/5 with a failing or crashing store write on the follower during one of the first exchanges, 1/12 with a transport that refuses after 0..3 requests; non-trivial = some AppendEntries succeeded"
+			seen := map[string]bool{}
+			for k := 0; k < *flagN; k++ {
+				runCatchupCase(rng, *flagThorough, out, st, seen)
 			}
 		default:
 			t.Fatalf("unknown engine %s", *flagEngine)
